@@ -4,6 +4,14 @@
 #include <atomic>
 #include <cstddef>
 
+#ifndef BINLOG_VERIF_POINT
+  #if defined(BINLOG_VERIF) && defined(BINLOG_VERIF_POINT_HOOK)
+    #define BINLOG_VERIF_POINT(name) BINLOG_VERIF_POINT_HOOK(name)
+  #else
+    #define BINLOG_VERIF_POINT(name)
+  #endif
+#endif
+
 namespace binlog {
 namespace detail {
 
